@@ -27,6 +27,11 @@ impl Tier {
     }
 }
 
+/// root of the verification tree (check.sh exports VERIF_HOME; default /verif)
+pub fn home() -> String {
+    std::env::var("VERIF_HOME").unwrap_or_else(|_| "/verif".to_string())
+}
+
 pub const BUILD: &str = if cfg!(feature = "full") { "full" } else { "min" };
 
 pub struct Run<'a> {
@@ -84,8 +89,8 @@ impl<'a> Run<'a> {
         let hang_is_verdict = self.hang_is_verdict;
         let on_hang = move |desc: &str| {
             // a single state did not finish within the hang cap
-            let path = format!("/verif/replays/{}-hang-{:016x}.json", property, fnv64(desc.as_bytes()));
-            let _ = std::fs::create_dir_all("/verif/replays");
+            let path = format!("{}/replays/{}-hang-{:016x}.json", home(), property, fnv64(desc.as_bytes()));
+            let _ = std::fs::create_dir_all(format!("{}/replays", home()));
             let _ = std::fs::write(&path, serde_json::to_string_pretty(&json!({"property": "C04", "sub_check": "hang", "state": desc, "build": BUILD})).unwrap());
             if hang_is_verdict {
                 println!("VIOLATION property={} replay={}", property, path);
